@@ -31,6 +31,9 @@ type c04Set struct {
 	Exprs []string
 	// Names: column names of this set (default a, devId, c3)
 	Names []string
+	// WinFirst: the window is written first in the GROUP BY list and LIMIT 100 closes the statement, so for the
+	// windows without a WITH clause the last grouping column is directly followed by LIMIT
+	WinFirst bool
 }
 
 func (s c04Set) col(i int) string {
@@ -82,38 +85,41 @@ func (s c04Set) outName(i int) string {
 var us = "\x1f"
 
 var c04Sets = []c04Set{
-	{"none", 0, []c04Tuple{{}}, false, false, false, nil, nil},
-	{"pipe1", 1, []c04Tuple{{"a|b"}, {"a"}, {"b"}, {""}}, false, false, false, nil, nil},
-	{"null1", 1, []c04Tuple{{nil}, {""}, {"\x00NULL"}}, false, false, false, nil, nil},
-	{"missing1", 1, []c04Tuple{{c04Missing}, {""}, {"a"}}, false, false, false, nil, nil},
-	{"num1", 1, []c04Tuple{{1}, {1.5}, {-1}, {0}}, false, false, false, nil, nil},
-	{"us1", 1, []c04Tuple{{"a" + us + "b"}, {"a"}, {"b"}}, false, false, false, nil, nil},
-	{"upper1", 1, []c04Tuple{{"a"}, {"A"}, {"b"}}, true, false, false, nil, nil},
-	{"pipe2", 2, []c04Tuple{{"a|b", "c"}, {"a", "b|c"}, {"a", "b"}}, false, false, false, nil, nil},
-	{"us2", 2, []c04Tuple{{"a" + us + "b", "c"}, {"a", "b" + us + "c"}, {"a", "c"}}, false, false, false, nil, nil},
-	{"null2", 2, []c04Tuple{{nil, "x"}, {"", "x"}, {"\x00NULL", "x"}}, false, false, false, nil, nil},
-	{"comma2", 2, []c04Tuple{{"a,b", "c"}, {"a", "b,c"}, {"1", "2"}}, false, false, false, nil, nil},
-	{"num2", 2, []c04Tuple{{1, 1.5}, {1, -1}, {0, 1}}, false, false, false, nil, nil},
-	{"bignum1", 1, []c04Tuple{{16777216.0}, {16777217.0}, {9007199254740992.0}, {0.1}}, false, false, false, nil, nil},
-	{"bignum2", 2, []c04Tuple{{1700000000123.0, "x"}, {1700000000124.0, "x"}, {1700000000123.0, "y"}}, false, false, false, nil, nil},
-	{"bigint1", 1, []c04Tuple{{int64(9007199254740993)}, {int64(9007199254740992)}, {int64(-9007199254740993)}}, false, false, false, nil, nil},
-	{"nullnull2", 2, []c04Tuple{{nil, nil}, {"", ""}, {"a", nil}}, false, false, false, nil, nil},
-	{"pipe3", 3, []c04Tuple{{"a|b", "c", "d"}, {"a", "b|c", "d"}, {"a", "b", "c|d"}}, false, false, false, nil, nil},
-	{"empty3", 3, []c04Tuple{{"a", "", "b"}, {"a", "b", ""}, {"", "a", "b"}}, false, false, false, nil, nil},
+	{"none", 0, []c04Tuple{{}}, false, false, false, nil, nil, false},
+	{"pipe1", 1, []c04Tuple{{"a|b"}, {"a"}, {"b"}, {""}}, false, false, false, nil, nil, false},
+	{"null1", 1, []c04Tuple{{nil}, {""}, {"\x00NULL"}}, false, false, false, nil, nil, false},
+	{"missing1", 1, []c04Tuple{{c04Missing}, {""}, {"a"}}, false, false, false, nil, nil, false},
+	{"num1", 1, []c04Tuple{{1}, {1.5}, {-1}, {0}}, false, false, false, nil, nil, false},
+	{"us1", 1, []c04Tuple{{"a" + us + "b"}, {"a"}, {"b"}}, false, false, false, nil, nil, false},
+	{"upper1", 1, []c04Tuple{{"a"}, {"A"}, {"b"}}, true, false, false, nil, nil, false},
+	{"pipe2", 2, []c04Tuple{{"a|b", "c"}, {"a", "b|c"}, {"a", "b"}}, false, false, false, nil, nil, false},
+	{"us2", 2, []c04Tuple{{"a" + us + "b", "c"}, {"a", "b" + us + "c"}, {"a", "c"}}, false, false, false, nil, nil, false},
+	{"null2", 2, []c04Tuple{{nil, "x"}, {"", "x"}, {"\x00NULL", "x"}}, false, false, false, nil, nil, false},
+	{"comma2", 2, []c04Tuple{{"a,b", "c"}, {"a", "b,c"}, {"1", "2"}}, false, false, false, nil, nil, false},
+	{"num2", 2, []c04Tuple{{1, 1.5}, {1, -1}, {0, 1}}, false, false, false, nil, nil, false},
+	{"bignum1", 1, []c04Tuple{{16777216.0}, {16777217.0}, {9007199254740992.0}, {0.1}}, false, false, false, nil, nil, false},
+	{"bignum2", 2, []c04Tuple{{1700000000123.0, "x"}, {1700000000124.0, "x"}, {1700000000123.0, "y"}}, false, false, false, nil, nil, false},
+	{"bigint1", 1, []c04Tuple{{int64(9007199254740993)}, {int64(9007199254740992)}, {int64(-9007199254740993)}}, false, false, false, nil, nil, false},
+	{"nullnull2", 2, []c04Tuple{{nil, nil}, {"", ""}, {"a", nil}}, false, false, false, nil, nil, false},
+	{"pipe3", 3, []c04Tuple{{"a|b", "c", "d"}, {"a", "b|c", "d"}, {"a", "b", "c|d"}}, false, false, false, nil, nil, false},
+	{"empty3", 3, []c04Tuple{{"a", "", "b"}, {"a", "b", ""}, {"", "a", "b"}}, false, false, false, nil, nil, false},
 	// "reports that tuple under the selected column names": an un-renamed column before renamed ones
-	{"alias2", 2, []c04Tuple{{"a", "x"}, {"a", "y"}, {"b", "x"}}, false, true, false, nil, nil},
-	{"alias3", 3, []c04Tuple{{"a", "x", 1}, {"a", "y", 1}, {"a", "x", 2}}, false, true, false, nil, nil},
+	{"alias2", 2, []c04Tuple{{"a", "x"}, {"a", "y"}, {"b", "x"}}, false, true, false, nil, nil, false},
+	{"alias3", 3, []c04Tuple{{"a", "x", 1}, {"a", "y", 1}, {"a", "x", 2}}, false, true, false, nil, nil, false},
 	// GROUP BY on a nested path; time windows only (keyed windows do not resolve qualified keys: known finding under C16)
-	{"nested1", 1, []c04Tuple{{"p"}, {"q"}, {nil}}, false, false, true, nil, nil},
-	{"nested2", 2, []c04Tuple{{"p", 1}, {"q", 1}, {"p", 2}}, false, false, true, nil, nil},
+	{"nested1", 1, []c04Tuple{{"p"}, {"q"}, {nil}}, false, false, true, nil, nil, false},
+	{"nested2", 2, []c04Tuple{{"p", 1}, {"q", 1}, {"p", 2}}, false, false, true, nil, nil, false},
 	// function-expression keys next to bare columns and next to each other; the first function has no value for some rows
-	{"col-func", 2, []c04Tuple{{"r", "x"}, {"r", "y"}, {"s", "x"}, {"r", "X"}}, false, false, false, []string{"", "upper(%s)"}, nil},
-	{"func-col", 2, []c04Tuple{{"x", "r"}, {"y", "r"}, {"X", "s"}}, false, false, false, []string{"upper(%s)", ""}, nil},
-	{"func-func", 2, []c04Tuple{{4, "x"}, {4, "y"}, {c04Missing, "x"}, {c04Missing, "y"}, {-1, "x"}}, false, false, false, []string{"sqrt(%s)", "upper(%s)"}, nil},
+	{"col-func", 2, []c04Tuple{{"r", "x"}, {"r", "y"}, {"s", "x"}, {"r", "X"}}, false, false, false, []string{"", "upper(%s)"}, nil, false},
+	{"func-col", 2, []c04Tuple{{"x", "r"}, {"y", "r"}, {"X", "s"}}, false, false, false, []string{"upper(%s)", ""}, nil, false},
+	{"func-func", 2, []c04Tuple{{4, "x"}, {4, "y"}, {c04Missing, "x"}, {c04Missing, "y"}, {-1, "x"}}, false, false, false, []string{"sqrt(%s)", "upper(%s)"}, nil, false},
 	// a function key with several arguments (commas inside the key; the selected item is a multi-argument scalar call)
 	{Name: "func-args2", Cols: 2, Tuples: []c04Tuple{{"ab", "x"}, {"ac", "x"}, {"bb", "x"}, {"ab", "y"}}, Exprs: []string{"substring(%s, 0, 1)", ""}},
 	// grouping columns whose names differ only in letter case are different columns
 	{Name: "case-names2", Cols: 2, Tuples: []c04Tuple{{"a", 1}, {"a", 2}, {"b", 2}}, Names: []string{"site", "SITE"}},
+	{Name: "window-first-limit2", Cols: 2, Tuples: []c04Tuple{{"a", "x"}, {"a", "y"}, {"b", "x"}}, WinFirst: true},
+	{Name: "window-first-limit1", Cols: 1, Tuples: []c04Tuple{{"a"}, {"b"}, {nil}}, WinFirst: true},
+	{Name: "window-first-limit-func2", Cols: 2, Tuples: []c04Tuple{{"a", "x"}, {"a", "X"}, {"b", "y"}}, Exprs: []string{"", "upper(%s)"}, WinFirst: true},
 	{Name: "case-names-func2", Cols: 2, Tuples: []c04Tuple{{"x", "x"}, {"x", "y"}, {"y", "y"}}, Exprs: []string{"upper(%s)", "upper(%s)"}, Names: []string{"k", "K"}},
 }
 
@@ -174,6 +180,9 @@ func c04Configs(tier string) []c04Cfg {
 			if c04Sets[si].Nested && k != "tumbling" {
 				continue
 			}
+			if c04Sets[si].WinFirst && k == "global" {
+				continue // GLOBAL WINDOW TRIGGER WHEN <predicate> ends the GROUP BY list by construction
+			}
 			out = append(out, c04Cfg{Set: si, Kind: k, MaxL: maxL})
 		}
 	}
@@ -226,6 +235,11 @@ func c04SQL(set c04Set, kind string) string {
 		with = " WITH (TIMESTAMP='ts', TIMEUNIT='ms')"
 	case "global":
 		grp = append(grp, "GLOBAL WINDOW TRIGGER WHEN count(*) >= 2")
+	}
+	if set.WinFirst {
+		n := len(grp) - 1
+		grp = append([]string{grp[n]}, grp[:n]...)
+		return "SELECT " + strings.Join(sel, ", ") + " FROM stream GROUP BY " + strings.Join(grp, ", ") + with + " LIMIT 100"
 	}
 	return "SELECT " + strings.Join(sel, ", ") + " FROM stream GROUP BY " + strings.Join(grp, ", ") + with
 }
